@@ -8,7 +8,6 @@ Definition Inv (p : pstate) : Prop :=
   | Some l => NoDup l /\ (forall c, In c l <-> stat p c = Idle) /\ (length l <= max_size p)%nat
   | None => forall c, stat p c <> Idle
   end /\
-  (forall c, (next_id p <= c)%nat -> stat p c = Fresh) /\
   (sends_ok p <= commits p <= sends p)%nat.
 
 Lemma set_stat_same f c s : set_stat f c s c = s.
@@ -39,171 +38,103 @@ Proof.
   intros E U. assert (L : l = rev r ++ [x]) by (rewrite <- (rev_involutive l), E; reflexivity).
   subst l. apply NoDup_remove in U. rewrite app_nil_r in U. tauto.
 Qed.
-
 Lemma filter_len_le {A} (f : A -> bool) l : (length (filter f l) <= length l)%nat.
 Proof. induction l as [|x l IH]; cbn; [lia|]. destruct (f x); cbn; lia. Qed.
 
-(* pushing at the end / popping from the end of the idle vector *)
+Lemma returnable_not_idle s : returnable s = true -> s <> Idle.
+Proof. destruct s; cbn; intros; discriminate. Qed.
+
+(* changing the status of a connection that is neither idle before nor after keeps the idle-set part *)
+Definition IdleInv (i : option (list nat)) (f : nat -> cstat) (max : nat) : Prop :=
+  match i with
+  | Some l => NoDup l /\ (forall c, In c l <-> f c = Idle) /\ (length l <= max)%nat
+  | None => forall c, f c <> Idle
+  end.
+Lemma idle_inv_set i f max c s : IdleInv i f max -> f c <> Idle -> s <> Idle -> IdleInv i (set_stat f c s) max.
+Proof.
+  intros H Hc Hs. destruct i as [l|]; cbn in *.
+  - destruct H as (U & HS & HM). split; [exact U|]. split; [|exact HM]. intros x. destruct (Nat.eq_dec x c) as [->|Hne].
+    + rewrite set_stat_same. rewrite HS. split; [intros X; contradiction|intros X; contradiction].
+    + rewrite set_stat_other by exact Hne. apply HS.
+  - intros x. destruct (Nat.eq_dec x c) as [->|Hne]; [rewrite set_stat_same; exact Hs|rewrite set_stat_other by exact Hne; apply H].
+Qed.
+Lemma idle_inv_push l f max c : IdleInv (Some l) f max -> f c <> Idle -> (length l < max)%nat ->
+  IdleInv (Some (l ++ [c])) (set_stat f c Idle) max.
+Proof.
+  intros (U & HS & HM) Hc Hl. assert (Nin : ~ In c l) by (rewrite HS; exact Hc). cbn.
+  split; [apply NoDup_snoc'; assumption|]. split.
+  - intros x. rewrite in_app_iff. cbn. destruct (Nat.eq_dec x c) as [->|Hne].
+    + rewrite set_stat_same. tauto.
+    + rewrite set_stat_other by exact Hne. rewrite <- HS. split; [intros [A|[A|[]]]; [exact A|congruence]|tauto].
+  - rewrite app_length. cbn. lia.
+Qed.
+
 Theorem step_inv p e p' : Inv p -> step p e = Some p' -> Inv p'.
 Proof.
-  intros HInv H. pose proof HInv as (HI & HF & HC). destruct e; cbn [step] in H.
+  intros HInv H. pose proof HInv as (HI & HC). fold (IdleInv (idle p) (stat p) (max_size p)) in HI.
+  assert (G : forall c s, stat p c <> Idle -> s <> Idle -> Inv (upd p (idle p) (set_stat (stat p) c s))).
+  { intros c s Hc Hs. split; [|exact HC]. cbn [idle upd stat max_size]. apply (idle_inv_set _ _ _ c s HI Hc Hs). }
+  destruct e as [c0| | |c0|c0|c0| |c0|c0 cm|c0|c0| |dr| |c0|c0|c0|c0]; cbn [step] in H.
   - (* EPop *)
     destruct (idle p) as [l|] eqn:El; [|discriminate]. destruct (rev l) as [|x r] eqn:Er; [discriminate|].
-    destruct (Nat.eqb x c) eqn:Ex; [|discriminate]. apply Nat.eqb_eq in Ex. subst x. inversion H; subst p'. clear H.
-    destruct HI as (U & HS & HM). destruct (NoDup_rev_tail c r l Er U) as (U' & Nin & ->).
-    assert (Ec : stat p c = Idle) by (apply HS; apply in_or_app; right; left; reflexivity).
-    split; [|split; [|exact HC]]; cbn [idle upd stat max_size next_id].
-    + split; [exact U'|]. split.
-      * intros x. destruct (Nat.eq_dec x c) as [->|Hne].
-        -- rewrite set_stat_same. split; [intros Hx; contradiction|discriminate].
-        -- rewrite set_stat_other by exact Hne. rewrite <- HS. rewrite in_app_iff. cbn. split; [tauto|]. intros [A|[A|[]]]; [exact A|congruence].
-      * rewrite app_length in HM. cbn in HM. lia.
-    + intros x Hx. destruct (Nat.eq_dec x c) as [->|Hne]; [rewrite (HF c Hx) in Ec; discriminate|rewrite set_stat_other by exact Hne; apply HF; exact Hx].
-  - destruct (idle p) as [[|? ?]|]; inversion H; subst; exact HInv.
+    destruct (Nat.eqb x c0) eqn:Ex; [|discriminate]. apply Nat.eqb_eq in Ex. subst x. inversion H; subst p'. clear H.
+    destruct HI as (U & HS & HM). destruct (NoDup_rev_tail c0 r l Er U) as (U' & Nin & ->).
+    split; [|exact HC]. cbn [idle upd stat max_size]. split; [exact U'|]. split.
+    + intros x. destruct (Nat.eq_dec x c0) as [->|Hne].
+      * rewrite set_stat_same. split; [intros Hx; contradiction|discriminate].
+      * rewrite set_stat_other by exact Hne. rewrite <- HS. rewrite in_app_iff. cbn. split; [tauto|]. intros [A|[A|[]]]; [exact A|congruence].
+    + rewrite app_length in HM. cbn in HM. lia.
+  - destruct (idle p) as [[|? ?]|] eqn:El; inversion H; subst. split; [cbn; rewrite El; exact HI|exact HC].
   - destruct (idle p); inversion H; subst; exact HInv.
-  - (* EProbeOk *)
-    destruct (is_stat (stat p c) Probing) eqn:E; [|discriminate]. apply is_stat_eq in E. inversion H; subst p'. clear H.
-    split; [|split; [|exact HC]]; cbn [idle upd stat next_id].
-    + destruct (idle p) as [l|].
-      * destruct HI as (U & HS & HM). split; [exact U|]. split; [|exact HM]. intros x. destruct (Nat.eq_dec x c) as [->|Hne].
-        -- rewrite set_stat_same. rewrite HS, E. split; discriminate.
-        -- rewrite set_stat_other by exact Hne. apply HS.
-      * intros x. destruct (Nat.eq_dec x c) as [->|Hne]; [rewrite set_stat_same; discriminate|rewrite set_stat_other by exact Hne; apply HI].
-    + intros x Hx. destruct (Nat.eq_dec x c) as [->|Hne]; [rewrite (HF c Hx) in E; discriminate|rewrite set_stat_other by exact Hne; apply HF; exact Hx].
-  - (* EProbeFail *)
-    destruct (is_stat (stat p c) Probing) eqn:E; [|discriminate]. apply is_stat_eq in E. inversion H; subst p'. clear H.
-    split; [|split; [|exact HC]]; cbn [idle upd stat next_id].
-    + destruct (idle p) as [l|].
-      * destruct HI as (U & HS & HM). split; [exact U|]. split; [|exact HM]. intros x. destruct (Nat.eq_dec x c) as [->|Hne].
-        -- rewrite set_stat_same. rewrite HS, E. split; discriminate.
-        -- rewrite set_stat_other by exact Hne. apply HS.
-      * intros x. destruct (Nat.eq_dec x c) as [->|Hne]; [rewrite set_stat_same; discriminate|rewrite set_stat_other by exact Hne; apply HI].
-    + intros x Hx. destruct (Nat.eq_dec x c) as [->|Hne]; [rewrite (HF c Hx) in E; discriminate|rewrite set_stat_other by exact Hne; apply HF; exact Hx].
-  - (* EConnectOk *)
-    destruct (Nat.eqb c (next_id p)) eqn:E; [|discriminate]. apply Nat.eqb_eq in E. subst c. inversion H; subst p'. clear H.
-    assert (Fr : stat p (next_id p) = Fresh) by (apply HF; lia).
-    split; [|split; [|exact HC]]; cbn [idle stat next_id max_size].
-    + destruct (idle p) as [l|].
-      * destruct HI as (U & HS & HM). split; [exact U|]. split; [|exact HM]. intros x. destruct (Nat.eq_dec x (next_id p)) as [->|Hne].
-        -- rewrite set_stat_same. rewrite HS, Fr. split; discriminate.
-        -- rewrite set_stat_other by exact Hne. apply HS.
-      * intros x. destruct (Nat.eq_dec x (next_id p)) as [->|Hne]; [rewrite set_stat_same; discriminate|rewrite set_stat_other by exact Hne; apply HI].
-    + intros x Hx. rewrite set_stat_other by lia. apply HF. lia.
-  - inversion H; subst. exact HInv.
-  - (* ESendOk *)
-    destruct (is_stat (stat p c) InUse) eqn:E; [|discriminate]. apply is_stat_eq in E. inversion H; subst p'. clear H.
-    split; [|split]; cbn [idle stat next_id max_size sends_ok commits sends].
-    + destruct (idle p) as [l|].
-      * destruct HI as (U & HS & HM). split; [exact U|]. split; [|exact HM]. intros x. destruct (Nat.eq_dec x c) as [->|Hne].
-        -- rewrite set_stat_same. rewrite HS, E. split; discriminate.
-        -- rewrite set_stat_other by exact Hne. apply HS.
-      * intros x. destruct (Nat.eq_dec x c) as [->|Hne]; [rewrite set_stat_same; discriminate|rewrite set_stat_other by exact Hne; apply HI].
-    + intros x Hx. destruct (Nat.eq_dec x c) as [->|Hne]; [rewrite (HF c Hx) in E; discriminate|rewrite set_stat_other by exact Hne; apply HF; exact Hx].
-    + lia.
-  - (* ESendErr *)
-    destruct (is_stat (stat p c) InUse) eqn:E; [|discriminate]. apply is_stat_eq in E. inversion H; subst p'. clear H.
-    split; [|split]; cbn [idle stat next_id max_size sends_ok commits sends].
-    + destruct (idle p) as [l|].
-      * destruct HI as (U & HS & HM). split; [exact U|]. split; [|exact HM]. intros x. destruct (Nat.eq_dec x c) as [->|Hne].
-        -- rewrite set_stat_same. rewrite HS, E. split; discriminate.
-        -- rewrite set_stat_other by exact Hne. apply HS.
-      * intros x. destruct (Nat.eq_dec x c) as [->|Hne]; [rewrite set_stat_same; discriminate|rewrite set_stat_other by exact Hne; apply HI].
-    + intros x Hx. destruct (Nat.eq_dec x c) as [->|Hne]; [rewrite (HF c Hx) in E; discriminate|rewrite set_stat_other by exact Hne; apply HF; exact Hx].
-    + destruct committed; lia.
-  - (* ERecyclePark *)
-    destruct (is_stat (stat p c) (ToRecycle false)) eqn:E; [|discriminate]. apply is_stat_eq in E.
+  - destruct (is_stat (stat p c0) Probing) eqn:E; [|discriminate]. apply is_stat_eq in E. inversion H; subst.
+    apply G; [rewrite E|]; discriminate.
+  - destruct (is_stat (stat p c0) Probing) eqn:E; [|discriminate]. apply is_stat_eq in E. inversion H; subst.
+    apply G; [rewrite E|]; discriminate.
+  - destruct (pending p) as [|n]; [discriminate|].
+    destruct (is_stat (stat p c0) Fresh) eqn:E; [|discriminate]. apply is_stat_eq in E. inversion H; subst.
+    apply (G c0 InUse); [rewrite E|]; discriminate.
+  - destruct (pending p) as [|n]; [discriminate|]. inversion H; subst. exact HInv.
+  - destruct (is_stat (stat p c0) InUse) eqn:E; [|discriminate]. apply is_stat_eq in E. inversion H; subst p'. clear H.
+    split; [|cbn; lia]. cbn [idle stat max_size with_counts upd]. apply idle_inv_set; [exact HI|rewrite E; discriminate|discriminate].
+  - destruct (is_stat (stat p c0) InUse) eqn:E; [|discriminate]. apply is_stat_eq in E. inversion H; subst p'. clear H.
+    split; [|cbn; destruct cm; lia]. cbn [idle stat max_size with_counts upd]. apply idle_inv_set; [exact HI|rewrite E; discriminate|discriminate].
+  - destruct (returnable (stat p c0)) eqn:E; [|discriminate]. apply returnable_not_idle in E.
     destruct (idle p) as [l|] eqn:El; [|discriminate]. destruct (Nat.ltb (length l) (max_size p)) eqn:Em; [|discriminate].
-    apply Nat.ltb_lt in Em. inversion H; subst p'. clear H. destruct HI as (U & HS & HM).
-    assert (Nin : ~ In c l) by (rewrite HS, E; discriminate).
-    split; [|split; [|exact HC]]; cbn [idle upd stat next_id max_size].
-    + split; [apply NoDup_snoc'; assumption|]. split.
-      * intros x. rewrite in_app_iff. cbn. destruct (Nat.eq_dec x c) as [->|Hne].
-        -- rewrite set_stat_same. tauto.
-        -- rewrite set_stat_other by exact Hne. rewrite <- HS. split; [intros [A|[A|[]]]; [exact A|congruence]|tauto].
-      * rewrite app_length. cbn. lia.
-    + intros x Hx. destruct (Nat.eq_dec x c) as [->|Hne]; [rewrite (HF c Hx) in E; discriminate|rewrite set_stat_other by exact Hne; apply HF; exact Hx].
-  - (* ERecycleClose *)
-    assert (G : forall b, stat p c = ToRecycle b -> Inv (upd p (idle p) (set_stat (stat p) c Closed))).
-    { intros b E. split; [|split; [|exact HC]]; cbn [idle upd stat next_id max_size].
-      + destruct (idle p) as [l|].
-        * destruct HI as (U & HS & HM). split; [exact U|]. split; [|exact HM]. intros x. destruct (Nat.eq_dec x c) as [->|Hne].
-          -- rewrite set_stat_same. rewrite HS, E. split; discriminate.
-          -- rewrite set_stat_other by exact Hne. apply HS.
-        * intros x. destruct (Nat.eq_dec x c) as [->|Hne]; [rewrite set_stat_same; discriminate|rewrite set_stat_other by exact Hne; apply HI].
-      + intros x Hx. destruct (Nat.eq_dec x c) as [->|Hne]; [rewrite (HF c Hx) in E; discriminate|rewrite set_stat_other by exact Hne; apply HF; exact Hx]. }
-    destruct (stat p c) eqn:E; try discriminate. destruct broken.
-    + inversion H; subst. exact (G true eq_refl).
-    + destruct (idle p) as [l|] eqn:El.
-      * destruct (Nat.ltb (length l) (max_size p)); [discriminate|]. inversion H; subst. exact (G false eq_refl).
-      * inversion H; subst. exact (G false eq_refl).
-  - (* EShutdown *)
-    destruct (idle p) as [l|] eqn:El.
-    + inversion H; subst p'. clear H. destruct HI as (U & HS & HM).
-      split; [|split; [|exact HC]]; cbn [idle upd stat next_id].
-      * intros x. destruct (in_dec Nat.eq_dec x l) as [Hin|Hnin].
-        -- rewrite set_all_in by exact Hin. discriminate.
-        -- rewrite set_all_out by exact Hnin. rewrite <- HS. exact Hnin.
-      * intros x Hx. rewrite set_all_out; [apply HF; exact Hx|]. rewrite HS, (HF x Hx). discriminate.
+    apply Nat.ltb_lt in Em. inversion H; subst p'. clear H. split; [|exact HC]. cbn [idle upd stat max_size].
+    apply idle_inv_push; [exact HI|exact E|exact Em].
+  - destruct (is_stat (stat p c0) (ToRecycle true)) eqn:E.
+    + apply is_stat_eq in E. inversion H; subst. apply G; [rewrite E|]; discriminate.
+    + destruct (returnable (stat p c0)) eqn:E2; [|discriminate]. apply returnable_not_idle in E2. destruct (idle p) as [l|] eqn:El.
+      * destruct (Nat.ltb (length l) (max_size p)); [discriminate|]. inversion H; subst. apply G; [exact E2|discriminate].
+      * inversion H; subst. apply G; [exact E2|discriminate].
+  - destruct (idle p) as [l|] eqn:El.
+    + inversion H; subst p'. clear H. destruct HI as (U & HS & HM). split; [|exact HC]. cbn [idle upd stat].
+      intros x. destruct (in_dec Nat.eq_dec x l) as [Hin|Hnin].
+      * rewrite set_all_in by exact Hin. discriminate.
+      * rewrite set_all_out by exact Hnin. rewrite <- HS. exact Hnin.
     + inversion H; subst. exact HInv.
-  - (* EMaintScan *)
-    destruct (idle p) as [l|] eqn:El; [|discriminate].
-    destruct (forallb (fun d => nmem d l) dropped && nodup_b dropped) eqn:E; [|discriminate].
-    apply andb_prop in E. destruct E as [Esub _]. inversion H; subst p'. clear H. destruct HI as (U & HS & HM).
-    assert (Sub : forall d, In d dropped -> In d l).
-    { intros d Hd. apply nmem_In. exact (proj1 (forallb_forall _ _) Esub d Hd). }
-    split; [|split; [|exact HC]]; cbn [idle upd stat next_id max_size].
-    + split; [apply NoDup_filter; exact U|]. split.
-      * intros x. unfold remove_all. rewrite filter_In. destruct (in_dec Nat.eq_dec x dropped) as [Hin|Hnin].
-        -- rewrite set_all_in by exact Hin. apply nmem_In in Hin. rewrite Hin. cbn. split; [intros [_ X]; discriminate|discriminate].
-        -- rewrite set_all_out by exact Hnin. rewrite <- HS.
-           destruct (nmem x dropped) eqn:Ex; [apply nmem_In in Ex; contradiction|]. cbn. tauto.
-      * unfold remove_all. pose proof (filter_len_le (fun x => negb (nmem x dropped)) l). lia.
-    + intros x Hx. rewrite set_all_out; [apply HF; exact Hx|]. intros Hd. apply Sub in Hd. rewrite HS, (HF x Hx) in Hd. discriminate.
+  - destruct (idle p) as [l|] eqn:El; [|discriminate].
+    destruct (forallb (fun d => nmem d l) dr && nodup_b dr) eqn:E; [|discriminate].
+    inversion H; subst p'. clear H. destruct HI as (U & HS & HM).
+    split; [|exact HC]. cbn [idle upd stat max_size]. split; [apply NoDup_filter; exact U|]. split.
+    + intros x. unfold remove_all. rewrite filter_In. destruct (in_dec Nat.eq_dec x dr) as [Hin|Hnin].
+      * rewrite set_all_in by exact Hin. apply nmem_In in Hin. rewrite Hin. cbn. split; [intros [_ X]; discriminate|discriminate].
+      * rewrite set_all_out by exact Hnin. rewrite <- HS.
+        destruct (nmem x dr) eqn:Ex; [apply nmem_In in Ex; contradiction|]. cbn. tauto.
+    + unfold remove_all. pose proof (filter_len_le (fun x => negb (nmem x dr)) l). lia.
   - destruct (idle p); inversion H; subst; exact HInv.
-  - (* EMaintConnectOk *)
-    destruct (Nat.eqb c (next_id p)) eqn:E; [|discriminate]. apply Nat.eqb_eq in E. subst c. inversion H; subst p'. clear H.
-    assert (Fr : stat p (next_id p) = Fresh) by (apply HF; lia).
-    split; [|split; [|exact HC]]; cbn [idle stat next_id max_size].
-    + destruct (idle p) as [l|].
-      * destruct HI as (U & HS & HM). split; [exact U|]. split; [|exact HM]. intros x. destruct (Nat.eq_dec x (next_id p)) as [->|Hne].
-        -- rewrite set_stat_same. rewrite HS, Fr. split; discriminate.
-        -- rewrite set_stat_other by exact Hne. apply HS.
-      * intros x. destruct (Nat.eq_dec x (next_id p)) as [->|Hne]; [rewrite set_stat_same; discriminate|rewrite set_stat_other by exact Hne; apply HI].
-    + intros x Hx. rewrite set_stat_other by lia. apply HF. lia.
-  - (* EMaintPush *)
-    destruct (is_stat (stat p c) MaintNew) eqn:E; [|discriminate]. apply is_stat_eq in E.
+  - destruct (is_stat (stat p c0) Fresh) eqn:E; [|discriminate]. apply is_stat_eq in E. inversion H; subst.
+    apply (G c0 MaintNew); [rewrite E|]; discriminate.
+  - destruct (is_stat (stat p c0) MaintNew) eqn:E; [|discriminate]. apply is_stat_eq in E.
     destruct (idle p) as [l|] eqn:El; [|discriminate]. destruct (Nat.ltb (length l) (max_size p)) eqn:Em; [|discriminate].
-    apply Nat.ltb_lt in Em. inversion H; subst p'. clear H. destruct HI as (U & HS & HM).
-    assert (Nin : ~ In c l) by (rewrite HS, E; discriminate).
-    split; [|split; [|exact HC]]; cbn [idle upd stat next_id max_size].
-    + split; [apply NoDup_snoc'; assumption|]. split.
-      * intros x. rewrite in_app_iff. cbn. destruct (Nat.eq_dec x c) as [->|Hne].
-        -- rewrite set_stat_same. tauto.
-        -- rewrite set_stat_other by exact Hne. rewrite <- HS. split; [intros [A|[A|[]]]; [exact A|congruence]|tauto].
-      * rewrite app_length. cbn. lia.
-    + intros x Hx. destruct (Nat.eq_dec x c) as [->|Hne]; [rewrite (HF c Hx) in E; discriminate|rewrite set_stat_other by exact Hne; apply HF; exact Hx].
-  - (* EMaintDropNew *)
-    destruct (is_stat (stat p c) MaintNew) eqn:E; [|discriminate]. apply is_stat_eq in E.
-    assert (G : Inv (upd p (idle p) (set_stat (stat p) c Closed))).
-    { split; [|split; [|exact HC]]; cbn [idle upd stat next_id max_size].
-      + destruct (idle p) as [l|].
-        * destruct HI as (U & HS & HM). split; [exact U|]. split; [|exact HM]. intros x. destruct (Nat.eq_dec x c) as [->|Hne].
-          -- rewrite set_stat_same. rewrite HS, E. split; discriminate.
-          -- rewrite set_stat_other by exact Hne. apply HS.
-        * intros x. destruct (Nat.eq_dec x c) as [->|Hne]; [rewrite set_stat_same; discriminate|rewrite set_stat_other by exact Hne; apply HI].
-      + intros x Hx. destruct (Nat.eq_dec x c) as [->|Hne]; [rewrite (HF c Hx) in E; discriminate|rewrite set_stat_other by exact Hne; apply HF; exact Hx]. }
+    apply Nat.ltb_lt in Em. inversion H; subst p'. clear H. split; [|exact HC]. cbn [idle upd stat max_size].
+    apply idle_inv_push; [exact HI|rewrite E; discriminate|exact Em].
+  - destruct (is_stat (stat p c0) MaintNew) eqn:E; [|discriminate]. apply is_stat_eq in E.
     destruct (idle p) as [l|] eqn:El.
-    + destruct (Nat.ltb (length l) (max_size p)); [discriminate|]. inversion H; subst. exact G.
-    + inversion H; subst. exact G.
-  - (* EMaintAbort *)
-    destruct (is_stat (stat p c) Expiring) eqn:E; [|discriminate]. apply is_stat_eq in E. inversion H; subst p'. clear H.
-    split; [|split; [|exact HC]]; cbn [idle upd stat next_id].
-    + destruct (idle p) as [l|].
-      * destruct HI as (U & HS & HM). split; [exact U|]. split; [|exact HM]. intros x. destruct (Nat.eq_dec x c) as [->|Hne].
-        -- rewrite set_stat_same. rewrite HS, E. split; discriminate.
-        -- rewrite set_stat_other by exact Hne. apply HS.
-      * intros x. destruct (Nat.eq_dec x c) as [->|Hne]; [rewrite set_stat_same; discriminate|rewrite set_stat_other by exact Hne; apply HI].
-    + intros x Hx. destruct (Nat.eq_dec x c) as [->|Hne]; [rewrite (HF c Hx) in E; discriminate|rewrite set_stat_other by exact Hne; apply HF; exact Hx].
+    + destruct (Nat.ltb (length l) (max_size p)); [discriminate|]. inversion H; subst. apply G; [rewrite E|]; discriminate.
+    + inversion H; subst. apply G; [rewrite E|]; discriminate.
+  - destruct (is_stat (stat p c0) Expiring) eqn:E; [|discriminate]. apply is_stat_eq in E. inversion H; subst.
+    apply G; [rewrite E|]; discriminate.
 Qed.
 
 Lemma init_inv max : Inv (p_init max).
@@ -224,7 +155,9 @@ Inductive edge : cstat -> cstat -> Prop :=
 | e_connect : edge Fresh InUse
 | e_send b : edge InUse (ToRecycle b)
 | e_park : edge (ToRecycle false) Idle
+| e_park_unused : edge InUse Idle
 | e_recycle_close b : edge (ToRecycle b) Closed
+| e_close_unused : edge InUse Closed
 | e_shutdown : edge Idle Closed
 | e_expire : edge Idle Expiring
 | e_maint_new : edge Fresh MaintNew
@@ -238,9 +171,12 @@ Proof. intros E. rewrite <- (rev_involutive l), E. cbn. apply in_or_app. right. 
 Lemma set_stat_edge f c s x : edge (f c) s -> set_stat f c s x = f x \/ edge (f x) (set_stat f c s x).
 Proof. intros E. destruct (Nat.eq_dec x c) as [->|Hne]; [rewrite set_stat_same; right; exact E|rewrite set_stat_other by exact Hne; left; reflexivity]. Qed.
 
+Lemma returnable_edges s : returnable s = true -> edge s Idle /\ edge s Closed.
+Proof. destruct s as [| | | |[|]| | |]; cbn; try discriminate; intros _; split; constructor. Qed.
+
 Theorem step_edges p e p' c : Inv p -> step p e = Some p' -> stat p' c = stat p c \/ edge (stat p c) (stat p' c).
 Proof.
-  intros HInv H. pose proof HInv as (HI & HF & _).
+  intros HInv H. pose proof HInv as (HI & _).
   destruct e as [c0| | |c0|c0|c0| |c0|c0 cm|c0|c0| |dr| |c0|c0|c0|c0]; cbn [step] in H.
   - destruct (idle p) as [l|] eqn:El; [|discriminate]. destruct (rev l) as [|x r] eqn:Er; [discriminate|].
     destruct (Nat.eqb x c0) eqn:Ex; [|discriminate]. apply Nat.eqb_eq in Ex. subst x. inversion H; subst. cbn [stat upd].
@@ -251,22 +187,23 @@ Proof.
     apply set_stat_edge. rewrite E. constructor.
   - destruct (is_stat (stat p c0) Probing) eqn:E; [|discriminate]. apply is_stat_eq in E. inversion H; subst. cbn [stat upd].
     apply set_stat_edge. rewrite E. constructor.
-  - destruct (Nat.eqb c0 (next_id p)) eqn:E; [|discriminate]. apply Nat.eqb_eq in E. subst c0. inversion H; subst. cbn [stat].
-    apply set_stat_edge. rewrite (HF (next_id p)) by lia. constructor.
-  - inversion H; subst; auto.
-  - destruct (is_stat (stat p c0) InUse) eqn:E; [|discriminate]. apply is_stat_eq in E. inversion H; subst. cbn [stat].
+  - destruct (pending p) as [|n]; [discriminate|].
+    destruct (is_stat (stat p c0) Fresh) eqn:E; [|discriminate]. apply is_stat_eq in E. inversion H; subst. cbn [stat upd with_pending].
     apply set_stat_edge. rewrite E. constructor.
-  - destruct (is_stat (stat p c0) InUse) eqn:E; [|discriminate]. apply is_stat_eq in E. inversion H; subst. cbn [stat].
+  - destruct (pending p) as [|n]; [discriminate|]. inversion H; subst; auto.
+  - destruct (is_stat (stat p c0) InUse) eqn:E; [|discriminate]. apply is_stat_eq in E. inversion H; subst. cbn [stat upd with_counts].
     apply set_stat_edge. rewrite E. constructor.
-  - destruct (is_stat (stat p c0) (ToRecycle false)) eqn:E; [|discriminate]. apply is_stat_eq in E.
+  - destruct (is_stat (stat p c0) InUse) eqn:E; [|discriminate]. apply is_stat_eq in E. inversion H; subst. cbn [stat upd with_counts].
+    apply set_stat_edge. rewrite E. constructor.
+  - destruct (returnable (stat p c0)) eqn:E; [|discriminate]. apply returnable_edges in E.
     destruct (idle p) as [l|]; [|discriminate]. destruct (Nat.ltb (length l) (max_size p)); [|discriminate].
-    inversion H; subst. cbn [stat upd]. apply set_stat_edge. rewrite E. constructor.
-  - destruct (stat p c0) eqn:E; try discriminate. destruct broken.
-    + inversion H; subst. cbn [stat upd]. apply set_stat_edge. rewrite E. constructor.
-    + destruct (idle p) as [l|].
+    inversion H; subst. cbn [stat upd]. apply set_stat_edge. apply E.
+  - destruct (is_stat (stat p c0) (ToRecycle true)) eqn:E.
+    + apply is_stat_eq in E. inversion H; subst. cbn [stat upd]. apply set_stat_edge. rewrite E. constructor.
+    + destruct (returnable (stat p c0)) eqn:E2; [|discriminate]. apply returnable_edges in E2. destruct (idle p) as [l|].
       * destruct (Nat.ltb (length l) (max_size p)); [discriminate|]. inversion H; subst. cbn [stat upd].
-        apply set_stat_edge. rewrite E. constructor.
-      * inversion H; subst. cbn [stat upd]. apply set_stat_edge. rewrite E. constructor.
+        apply set_stat_edge. apply E2.
+      * inversion H; subst. cbn [stat upd]. apply set_stat_edge. apply E2.
   - destruct (idle p) as [l|] eqn:El.
     + inversion H; subst. cbn [stat upd]. unfold set_all. destruct (nmem c l) eqn:En; [|left; reflexivity].
       right. apply nmem_In in En. destruct HI as (_ & HS & _). rewrite (proj1 (HS c) En). constructor.
@@ -277,8 +214,8 @@ Proof.
     right. apply nmem_In in En. pose proof (proj1 (forallb_forall _ _) Es c En) as X. apply nmem_In in X.
     destruct HI as (_ & HS & _). rewrite (proj1 (HS c) X). constructor.
   - destruct (idle p); inversion H; subst; auto.
-  - destruct (Nat.eqb c0 (next_id p)) eqn:E; [|discriminate]. apply Nat.eqb_eq in E. subst c0. inversion H; subst. cbn [stat].
-    apply set_stat_edge. rewrite (HF (next_id p)) by lia. constructor.
+  - destruct (is_stat (stat p c0) Fresh) eqn:E; [|discriminate]. apply is_stat_eq in E. inversion H; subst. cbn [stat upd].
+    apply set_stat_edge. rewrite E. constructor.
   - destruct (is_stat (stat p c0) MaintNew) eqn:E; [|discriminate]. apply is_stat_eq in E.
     destruct (idle p) as [l|]; [|discriminate]. destruct (Nat.ltb (length l) (max_size p)); [|discriminate].
     inversion H; subst. cbn [stat upd]. apply set_stat_edge. rewrite E. constructor.
@@ -338,7 +275,7 @@ Lemma after_shutdown_no_pop p c : idle p = None -> step p (EPop c) = None /\ ste
   step p (ERecyclePark c) = None /\ step p (EMaintPush c) = None.
 Proof.
   intros H. cbn [step]. rewrite H. repeat split; try reflexivity.
-  - destruct (is_stat (stat p c) (ToRecycle false)); reflexivity.
+  - destruct (returnable (stat p c)); reflexivity.
   - destruct (is_stat (stat p c) MaintNew); reflexivity.
 Qed.
 
@@ -353,17 +290,178 @@ Qed.
 Lemma send_needs_probe_or_fresh p c p' : step p (ESendOk c) = Some p' -> stat p c = InUse.
 Proof. cbn [step]. destruct (is_stat (stat p c) InUse) eqn:E; [|discriminate]. intros _. apply is_stat_eq. exact E. Qed.
 Lemma inuse_from p e p' c : step p e = Some p' -> stat p c <> InUse -> stat p' c = InUse ->
-  (e = EProbeOk c /\ stat p c = Probing) \/ (e = EConnectOk c /\ c = next_id p).
+  (e = EProbeOk c /\ stat p c = Probing) \/ (e = EConnectOk c /\ stat p c = Fresh).
 Proof.
   intros H Hn Hi. destruct e; cbn [step] in H;
   repeat match goal with
   | H : match ?x with _ => _ end = Some _ |- _ => destruct x eqn:?; try discriminate
   | H : (if ?x then _ else _) = Some _ |- _ => destruct x eqn:?; try discriminate
-  end; inversion H; subst; cbn [stat upd] in Hi; try contradiction;
+  end; inversion H; subst; cbn [stat upd with_pending with_counts] in Hi; try contradiction;
   try (unfold set_stat in Hi; destruct (Nat.eqb c _) eqn:Ec; [discriminate|contradiction]);
   try (unfold set_all in Hi; destruct (nmem c _); [discriminate|contradiction]).
   - unfold set_stat in Hi. destruct (Nat.eqb c c0) eqn:Ec; [|contradiction]. apply Nat.eqb_eq in Ec. subst c0.
     left. split; [reflexivity|]. apply is_stat_eq. assumption.
   - unfold set_stat in Hi. destruct (Nat.eqb c c0) eqn:Ec; [|contradiction]. apply Nat.eqb_eq in Ec. subst c0.
-    right. split; [reflexivity|]. apply Nat.eqb_eq. assumption.
+    right. split; [reflexivity|]. apply is_stat_eq. assumption.
+Qed.
+
+(* ---------- one send at a time, one transaction per hand-over ---------- *)
+(* Per connection, the events hand-over (H: probe succeeded / connected), send (S) and return (R) in any
+   accepted trace spell (H S? R)*: a connection is never handed to a second sender before the first one
+   returned it, and carries at most one transaction per hand-over. *)
+Local Open Scope nat_scope.
+Inductive sym := SH | SS | SR.
+Definition sym_of (c : nat) (e : event) : option sym :=
+  match e with
+  | EProbeOk x | EConnectOk x => if Nat.eqb c x then Some SH else None
+  | ESendOk x | ESendErr x _ => if Nat.eqb c x then Some SS else None
+  | ERecyclePark x | ERecycleClose x => if Nat.eqb c x then Some SR else None
+  | _ => None
+  end.
+Definition hstate (s : cstat) : nat := match s with InUse => 1 | ToRecycle _ => 2 | _ => 0 end.
+Definition hstep (q : nat) (y : sym) : option nat :=
+  match q, y with
+  | 0, SH => Some 1
+  | 1, SS => Some 2
+  | 1, SR => Some 0
+  | 2, SR => Some 0
+  | _, _ => None
+  end.
+Fixpoint hrun (q : nat) (l : list sym) : option nat :=
+  match l with [] => Some q | y :: r => match hstep q y with Some q' => hrun q' r | None => None end end.
+Fixpoint proj (c : nat) (tr : list event) : list sym :=
+  match tr with [] => [] | e :: r => match sym_of c e with Some y => y :: proj c r | None => proj c r end end.
+
+Ltac break_step H :=
+  repeat match type of H with
+  | match ?x with _ => _ end = Some _ => destruct x eqn:?; try discriminate
+  | (if ?x then _ else _) = Some _ => destruct x eqn:?; try discriminate
+  end; inversion H; subst; clear H.
+
+Lemma returnable_hstate s : returnable s = true -> hstate s = 1 \/ hstate s = 2.
+Proof. destruct s as [| | | |[|]| | |]; cbn; try discriminate; auto. Qed.
+
+Lemma step_session p e p' c : Inv p -> step p e = Some p' ->
+  match sym_of c e with
+  | Some y => hstep (hstate (stat p c)) y = Some (hstate (stat p' c))
+  | None => hstate (stat p' c) = hstate (stat p c)
+  end.
+Proof.
+  intros HInv H. pose proof HInv as (HI & _).
+  destruct e as [c0| | |c0|c0|c0| |c0|c0 cm|c0|c0| |dr| |c0|c0|c0|c0]; cbn [step] in H; cbn [sym_of].
+  - (* EPop *) destruct (idle p) as [l|] eqn:El; [|discriminate]. destruct (rev l) as [|x r] eqn:Er; [discriminate|].
+    destruct (Nat.eqb x c0) eqn:Ex; [|discriminate]. apply Nat.eqb_eq in Ex. subst x. inversion H; subst. cbn [stat upd].
+    unfold set_stat. destruct (Nat.eqb c c0) eqn:Ec; [|reflexivity]. apply Nat.eqb_eq in Ec. subst c0.
+    destruct HI as (_ & HS & _). rewrite (proj1 (HS c) (rev_head_in l c r Er)). reflexivity.
+  - break_step H. reflexivity.
+  - break_step H. reflexivity.
+  - destruct (is_stat (stat p c0) Probing) eqn:E; [|discriminate]. apply is_stat_eq in E. inversion H; subst. cbn [stat upd].
+    unfold set_stat. destruct (Nat.eqb c c0) eqn:Ec; [|reflexivity]. apply Nat.eqb_eq in Ec. subst c0. rewrite E. reflexivity.
+  - destruct (is_stat (stat p c0) Probing) eqn:E; [|discriminate]. apply is_stat_eq in E. inversion H; subst. cbn [stat upd].
+    unfold set_stat. destruct (Nat.eqb c c0) eqn:Ec; [|reflexivity]. apply Nat.eqb_eq in Ec. subst c0. rewrite E. reflexivity.
+  - destruct (pending p) as [|n]; [discriminate|].
+    destruct (is_stat (stat p c0) Fresh) eqn:E; [|discriminate]. apply is_stat_eq in E. inversion H; subst. cbn [stat upd with_pending].
+    unfold set_stat. destruct (Nat.eqb c c0) eqn:Ec; [|reflexivity]. apply Nat.eqb_eq in Ec. subst c0. rewrite E. reflexivity.
+  - break_step H. reflexivity.
+  - destruct (is_stat (stat p c0) InUse) eqn:E; [|discriminate]. apply is_stat_eq in E. inversion H; subst. cbn [stat upd with_counts].
+    unfold set_stat. destruct (Nat.eqb c c0) eqn:Ec; [|reflexivity]. apply Nat.eqb_eq in Ec. subst c0. rewrite E. reflexivity.
+  - destruct (is_stat (stat p c0) InUse) eqn:E; [|discriminate]. apply is_stat_eq in E. inversion H; subst. cbn [stat upd with_counts].
+    unfold set_stat. destruct (Nat.eqb c c0) eqn:Ec; [|reflexivity]. apply Nat.eqb_eq in Ec. subst c0. rewrite E. reflexivity.
+  - destruct (returnable (stat p c0)) eqn:E; [|discriminate]. apply returnable_hstate in E.
+    destruct (idle p) as [l|]; [|discriminate]. destruct (Nat.ltb (length l) (max_size p)); [|discriminate].
+    inversion H; subst. cbn [stat upd]. unfold set_stat. destruct (Nat.eqb c c0) eqn:Ec; [|reflexivity].
+    apply Nat.eqb_eq in Ec. subst c0. destruct E as [-> | ->]; reflexivity.
+  - assert (X : returnable (stat p c0) = true \/ stat p c0 = ToRecycle true).
+    { destruct (is_stat (stat p c0) (ToRecycle true)) eqn:E; [right; apply is_stat_eq; exact E|].
+      destruct (returnable (stat p c0)); [left; reflexivity|discriminate]. }
+    assert (Y : hstate (stat p c0) = 1 \/ hstate (stat p c0) = 2).
+    { destruct X as [X|X]; [apply returnable_hstate; exact X|rewrite X; right; reflexivity]. }
+    assert (Z : p' = upd p (idle p) (set_stat (stat p) c0 Closed)) by (break_step H; reflexivity).
+    subst p'. cbn [stat upd]. unfold set_stat. destruct (Nat.eqb c c0) eqn:Ec; [|reflexivity].
+    apply Nat.eqb_eq in Ec. subst c0. destruct Y as [-> | ->]; reflexivity.
+  - destruct (idle p) as [l|] eqn:El.
+    + inversion H; subst. cbn [stat upd]. unfold set_all. destruct (nmem c l) eqn:En; [|reflexivity].
+      apply nmem_In in En. destruct HI as (_ & HS & _). rewrite (proj1 (HS c) En). reflexivity.
+    + inversion H; subst; reflexivity.
+  - destruct (idle p) as [l|] eqn:El; [|discriminate].
+    destruct (forallb (fun d => nmem d l) dr && nodup_b dr) eqn:E; [|discriminate]. apply andb_prop in E. destruct E as [Es _].
+    inversion H; subst. cbn [stat upd]. unfold set_all. destruct (nmem c dr) eqn:En; [|reflexivity].
+    apply nmem_In in En. pose proof (proj1 (forallb_forall _ _) Es c En) as X. apply nmem_In in X.
+    destruct HI as (_ & HS & _). rewrite (proj1 (HS c) X). reflexivity.
+  - break_step H. reflexivity.
+  - destruct (is_stat (stat p c0) Fresh) eqn:E; [|discriminate]. apply is_stat_eq in E. inversion H; subst. cbn [stat upd].
+    unfold set_stat. destruct (Nat.eqb c c0) eqn:Ec; [|reflexivity]. apply Nat.eqb_eq in Ec. subst c0. rewrite E. reflexivity.
+  - destruct (is_stat (stat p c0) MaintNew) eqn:E; [|discriminate]. apply is_stat_eq in E.
+    destruct (idle p) as [l|]; [|discriminate]. destruct (Nat.ltb (length l) (max_size p)); [|discriminate].
+    inversion H; subst. cbn [stat upd]. unfold set_stat. destruct (Nat.eqb c c0) eqn:Ec; [|reflexivity].
+    apply Nat.eqb_eq in Ec. subst c0. rewrite E. reflexivity.
+  - destruct (is_stat (stat p c0) MaintNew) eqn:E; [|discriminate]. apply is_stat_eq in E.
+    assert (Z : p' = upd p (idle p) (set_stat (stat p) c0 Closed)) by (break_step H; reflexivity).
+    subst p'. cbn [stat upd]. unfold set_stat. destruct (Nat.eqb c c0) eqn:Ec; [|reflexivity].
+    apply Nat.eqb_eq in Ec. subst c0. rewrite E. reflexivity.
+  - destruct (is_stat (stat p c0) Expiring) eqn:E; [|discriminate]. apply is_stat_eq in E. inversion H; subst. cbn [stat upd].
+    unfold set_stat. destruct (Nat.eqb c c0) eqn:Ec; [|reflexivity]. apply Nat.eqb_eq in Ec. subst c0. rewrite E. reflexivity.
+Qed.
+
+Theorem run_session c tr : forall p p', Inv p -> run tr p = Some p' ->
+  hrun (hstate (stat p c)) (proj c tr) = Some (hstate (stat p' c)).
+Proof.
+  induction tr as [|e tr IH]; intros p p' HI H; cbn [run proj] in *; [inversion H; subst; reflexivity|].
+  destruct (step p e) as [p1|] eqn:E; [|discriminate].
+  pose proof (step_session p e p1 c HI E) as S. pose proof (IH p1 p' (step_inv p e p1 HI E) H) as R.
+  destruct (sym_of c e) as [y|]; [cbn [hrun]; rewrite S; exact R|rewrite <- S; exact R].
+Qed.
+
+(* ---------- exactly once ---------- *)
+(* when no reply to an accepted message is lost (no ESendErr _ true), the server commits exactly the
+   messages whose send returned Ok; in general it commits at least those (Inv) *)
+Definition lost_reply (e : event) : bool := match e with ESendErr _ true => true | _ => false end.
+Lemma step_counts p e p' : step p e = Some p' -> lost_reply e = false ->
+  commits p = sends_ok p -> commits p' = sends_ok p'.
+Proof.
+  intros H L Hc. destruct e; cbn [step] in H; try (break_step H; cbn; try assumption; try lia; fail).
+  destruct committed; [discriminate|]. break_step H. cbn. assumption.
+Qed.
+Theorem run_exactly_once tr : forall p p', run tr p = Some p' -> forallb (fun e => negb (lost_reply e)) tr = true ->
+  commits p = sends_ok p -> commits p' = sends_ok p'.
+Proof.
+  induction tr as [|e tr IH]; intros p p' H L Hc; cbn [run forallb] in *; [inversion H; subst; exact Hc|].
+  apply andb_prop in L. destruct L as [L1 L2]. apply Bool.negb_true_iff in L1.
+  destruct (step p e) as [p1|] eqn:E; [|discriminate]. exact (IH p1 p' H L2 (step_counts p e p1 E L1 Hc)).
+Qed.
+
+(* ---------- no connection is opened for a send that starts after shutdown ---------- *)
+Definition is_connect (e : event) : bool := match e with EConnectOk _ | EConnectFail => true | _ => false end.
+Fixpoint count_ev (f : event -> bool) (tr : list event) : nat :=
+  match tr with [] => 0 | e :: r => (if f e then 1 else 0) + count_ev f r end.
+Lemma step_pending_shut p e p' : step p e = Some p' -> idle p = None ->
+  pending p = ((if is_connect e then 1 else 0) + pending p')%nat.
+Proof.
+  intros H Hn. destruct e; cbn [step] in H; rewrite ?Hn in H; try discriminate; break_step H; cbn; try reflexivity; try lia.
+Qed.
+Theorem run_connects_after_shutdown tr : forall p p', run tr p = Some p' -> idle p = None ->
+  (count_ev is_connect tr + pending p' = pending p)%nat.
+Proof.
+  induction tr as [|e tr IH]; intros p p' H Hn; cbn [run count_ev] in *; [inversion H; subst; reflexivity|].
+  destruct (step p e) as [p1|] eqn:E; [|discriminate].
+  pose proof (step_pending_shut p e p1 E Hn) as S. pose proof (IH p1 p' H (step_shutdown_final p e p1 E Hn)) as R. lia.
+Qed.
+
+(* after shutdown nothing is parked: every connection returned later is closed *)
+Theorem after_shutdown_none_idle tr p p' c : Inv p -> run tr p = Some p' -> idle p = None -> stat p' c <> Idle.
+Proof.
+  intros HI H Hn. pose proof (run_inv tr p p' HI H) as (HI' & _). rewrite (run_shutdown_final tr p p' H Hn) in HI'. apply HI'.
+Qed.
+
+(* the idle set never exceeds max_size, in every reachable state *)
+Theorem reachable_idle_bound tr max p' l : run tr (p_init max) = Some p' -> idle p' = Some l -> (length l <= max)%nat.
+Proof.
+  intros H Hl. pose proof (run_inv tr _ p' (init_inv max) H) as (HI & _). rewrite Hl in HI.
+  assert (M : max_size p' = max).
+  { clear HI Hl. assert (G : forall tr p p', run tr p = Some p' -> max_size p' = max_size p).
+    { clear. induction tr as [|e tr IH]; intros p p' H; cbn [run] in H; [inversion H; reflexivity|].
+      destruct (step p e) as [p1|] eqn:E; [|discriminate]. rewrite (IH p1 p' H).
+      clear -E. destruct e; cbn [step] in E; break_step E; reflexivity. }
+    rewrite (G tr _ _ H). reflexivity. }
+  rewrite M in HI. tauto.
 Qed.
